@@ -5,7 +5,7 @@ CONSTANTS Seed = 1
  FinBits = {0, 1, 7, 8, 9, 31, 32, 33}
  MaxOps = 3
  MaxBytes = 60
- OutFile = "/tmp/c11-work/mac.ndjson"
+ OutFile = "/tmp/vs/c11mac.ndjson"
 SPECIFICATION Spec
 VIEW View
 INVARIANTS TypeOK
